@@ -62,10 +62,12 @@ var arithOps = []string{"+", "-", "*", "/", "%", "//"}
 var arithRhs = []string{"1", "2", "(1,2)", "null", "[9]", "{c:1}", "\"s\"", ".", "length", "empty", ".[0]?", "0"}
 
 type gen struct {
-	r *Rng
+	r       *Rng
+	safeNew bool    // heap stream: new values never contain a container made during the run
+	objs    []*hobj // heap stream: the objects of the initial heap
 }
 
-func newGen(r *Rng) *gen { return &gen{r} }
+func newGen(r *Rng) *gen { return &gen{r: r} }
 
 func (g *gen) pick(xs ...string) string { return xs[g.r.Intn(len(xs))] }
 
